@@ -195,10 +195,34 @@ def run(ctx, prop, root=None, seed=0, budget=None):
         jobs = rnd.sample(jobs, budget)
     results = []
     workers = min(16, os.cpu_count() or 1)
-    with cf.ProcessPoolExecutor(max_workers=workers) as pool:
-        for r in pool.map(_run_one, jobs, chunksize=4):
+    # wall-clock budget: variants that are not finished by then are reported as not run (never as killed or survived)
+    import time
+    deadline = time.time() + float(os.environ.get("TYVERIF_SELFTEST_SECONDS", "420"))
+    pool = cf.ProcessPoolExecutor(max_workers=workers)
+    futs = [pool.submit(_run_one, j) for j in jobs]
+    not_run = 0
+    try:
+        for fu in futs:
+            left = deadline - time.time()
+            try:
+                r = fu.result(timeout=max(left, 0.01))
+            except cf.TimeoutError:
+                not_run += 1
+                fu.cancel()
+                continue
+            except Exception:
+                not_run += 1
+                continue
             if r is not None:
                 results.append(r)
+    finally:
+        procs = list((getattr(pool, "_processes", None) or {}).values())
+        pool.shutdown(wait=False, cancel_futures=True)
+        for pr in procs:
+            try:
+                pr.terminate()
+            except Exception:
+                pass
     tally = {}
     for r in results:
         tally[r["outcome"]] = tally.get(r["outcome"], 0) + 1
@@ -212,6 +236,7 @@ def run(ctx, prop, root=None, seed=0, budget=None):
     ctx.extra["selftest"] = {
         "mutation_sites_in_analysed_functions": total_sites,
         "variants_run": len(results),
+        "variants_not_run_time_budget": not_run,
         "outcomes": tally,
         "kills_per_rule": dict(sorted(per_rule.items())),
         "rules_without_kill": sorted(set(ctx.rules) - set(per_rule)),
